@@ -6,6 +6,10 @@ import (
 	"math/big"
 
 	"github.com/pkg/errors"
+	psync "polycry.pt/poly-go/sync"
+	"sync"
+	"context"
+	"time"
 	"polycry.pt/poly-go/sortedkv"
 	"polycry.pt/poly-go/sortedkv/memorydb"
 
@@ -115,4 +119,72 @@ func VerifSmokeBatch() {
 		n++
 	}
 	rt.Assert("smoke.batch.empty", n == 0)
+}
+
+// VerifSmokeGo: goroutines, channels, select, mutex, waitgroup (engine self-test).
+func VerifSmokeGo() {
+	ch := make(chan int)
+	done := make(chan struct{}, 1)
+	var mu sync.Mutex
+	var wg sync.WaitGroup
+	total := 0
+	for i := 1; i <= 3; i++ {
+		wg.Add(1)
+		go func(v int) {
+			defer wg.Done()
+			mu.Lock()
+			total += v
+			mu.Unlock()
+			ch <- v
+		}(i)
+	}
+	sum := 0
+	for i := 0; i < 3; i++ {
+		sum += <-ch
+	}
+	wg.Wait()
+	rt.Assert("smoke.go.sum", sum == 6 && total == 6)
+	go func() { done <- struct{}{} }()
+	select {
+	case <-done:
+	case v := <-ch:
+		rt.Assert("smoke.go.never", v < 0)
+	}
+	// poly-go mutex with context
+	var pm psync.Mutex
+	rt.Assert("smoke.go.trylock", pm.TryLock())
+	rt.Assert("smoke.go.trylock2", !pm.TryLock())
+	pm.Unlock()
+	var once sync.Once
+	n := 0
+	once.Do(func() { n++ })
+	once.Do(func() { n++ })
+	rt.Assert("smoke.go.once", n == 1)
+	rt.Reach("smoke.go")
+}
+
+// VerifSmokeCtx: context cancellation and timeouts on the virtual clock.
+func VerifSmokeCtx() {
+	ctx, cancel := context.WithTimeout(context.Background(), time.Second)
+	defer cancel()
+	rt.Assert("smoke.ctx.live", ctx.Err() == nil)
+	child, ccancel := context.WithCancel(ctx)
+	defer ccancel()
+	got := make(chan int, 1)
+	go func() {
+		select {
+		case <-child.Done():
+			got <- 1
+		case <-time.After(5 * time.Second):
+			got <- 2
+		}
+	}()
+	v := <-got
+	rt.Assert("smoke.ctx.timeout-first", v == 1 && child.Err() == context.DeadlineExceeded)
+	var pm psync.Mutex
+	pm.Lock()
+	c2, cancel2 := context.WithCancel(context.Background())
+	cancel2()
+	rt.Assert("smoke.ctx.trylockctx", !pm.TryLockCtx(c2))
+	rt.Reach("smoke.ctx")
 }
